@@ -228,6 +228,37 @@ def handOutContexts (m : Mem) (t : Option Triple) : List Handle :=
 def handOutTriples (cur : List Quad) (p : Pat) : List (Triple × List Handle) :=
   (memTriples cur p).map (fun tc => (tc.1, tc.2.map (fun g => (g, Bound.wrapper))))
 
+/-- the reads of the public surface that hand a `Graph` object (or something holding one) to the caller -/
+inductive Source
+  | storeContexts     -- AuditableStore.contexts()
+  | storeTriples      -- the graphs AuditableStore.triples() yields with each triple
+  | cgContexts        -- ConjunctiveGraph.contexts(): `for context in self.store.contexts(triple): if isinstance(context, Graph): yield context`
+  | cgContextsOf      -- ConjunctiveGraph.contexts(triple), for every triple held
+  | cgQuads           -- the graph of each quad of ConjunctiveGraph.quads(): `for (s,p,o), cg in self.store.triples(…): for ctx in cg`
+  | getContext        -- get_context(name) / default_context / get_graph(name): `Graph(store=self.store, identifier=…)`, self.store = the wrapper
+  | resource          -- Graph.resource(node).graph : the graph it was asked of
+  | collection        -- Collection(graph, node).graph : the graph it was given
+  | nsManager         -- graph.namespace_manager.graph : the graph it belongs to
+  deriving DecidableEq, Repr
+
+def Source.all : List Source :=
+  [.storeContexts, .storeTriples, .cgContexts, .cgContextsOf, .cgQuads, .getContext, .resource, .collection, .nsManager]
+
+/-- graph-layer objects (`rdflib/graph.py`) are built on `self.store`, and the `store` of a graph over the wrapper is the wrapper -/
+def graphLayer (m : Mem) : List Handle := m.ctxs.map (fun g => (g, Bound.wrapper))
+
+/-- the `Graph` objects each read hands out -/
+def handOut (s : XW) : Source → List Handle
+  | .storeContexts => handOutContexts s.m none
+  | .storeTriples => (handOutTriples s.m.cur (none, none, none, none)).flatMap (·.2)
+  | .cgContexts => handOutContexts s.m none
+  | .cgContextsOf => (s.m.cur.map Quad.triple).flatMap (fun t => handOutContexts s.m (some t))
+  | .cgQuads => (handOutTriples s.m.cur (none, none, none, none)).flatMap (·.2)
+  | .getContext => graphLayer s.m
+  | .resource => graphLayer s.m
+  | .collection => graphLayer s.m
+  | .nsManager => graphLayer s.m
+
 /-- a write made through a `Graph` object: `Graph.add` / `Graph.remove` call `self.store.add / remove(…, context=self)` -/
 inductive HWrite
   | add (t : Triple)
@@ -274,6 +305,43 @@ def GCmd.expand : GCmd → List XCmd
   | .op o => o.expand.map .op
   | .commit => [.commit]
   | .rollback => [.rollback]
+
+/-! ### `Graph.parse` and SPARQL Update (`Graph.update`, rdflib's own evaluator) inside a transaction -/
+
+/-- what the parser's sink and the update evaluator do to the graph, as the wrapper calls they make;
+    `deleteWhere` depends on the content at that moment (the evaluator first solves the pattern) -/
+inductive UOp
+  | parse (qs : List Quad)        -- the sink calls `graph.add` once per statement, in document order
+  | insertData (qs : List Quad)   -- `evalInsertData`: `g += triples` = `Store.addN`
+  | deleteData (qs : List Quad)   -- `evalDeleteData`: `g -= triples` = one fully bound `remove` each
+  | deleteWhere (p : Pat)         -- `evalDeleteWhere`: `evalBGP`, then per solution `cg -= [filled template]`:
+                                  -- one fully bound `remove` per matching triple of the graph
+  | clear (g : Nat)               -- `evalClear`: `graph.remove((None, None, None))`
+  deriving Repr
+
+def UOp.expandAt (cur : List Quad) : UOp → List XOp
+  | .parse qs => qs.map .add
+  | .insertData qs => qs.map .add
+  | .deleteData qs => qs.map (fun q => .remove q.pat)
+  | .deleteWhere p => (cur.filter (fun q => p.matches q)).map (fun q => .remove q.pat)
+  | .clear g => [.remove (none, none, none, some g)]
+
+def XW.ustep (s : XW) (u : UOp) : XW := (u.expandAt s.m.cur).foldl XW.step s
+
+inductive UCmd
+  | u (o : UOp)
+  | g (o : GOp)
+  | commit
+  | rollback
+  deriving Repr
+
+def XW.ucmd (s : XW) : UCmd → XW
+  | .u o => s.ustep o
+  | .g o => o.expand.foldl XW.step s
+  | .commit => s.commit
+  | .rollback => s.rollback
+
+def XW.urun (s : XW) (cs : List UCmd) : XW := cs.foldl XW.ucmd s
 
 /-! ### two wrappers side by side over one store -/
 
